@@ -4,22 +4,26 @@ import (
 	pkts "github.com/energomonitor/bisquitt/packets"
 	pkts1 "github.com/energomonitor/bisquitt/packets1"
 	"github.com/energomonitor/bisquitt/transactions"
+	"github.com/energomonitor/bisquitt/util"
 )
 
 type pingTransaction struct {
 	*transaction
+	keepalive bool
 }
 
-func newPingTransaction(client *Client) *pingTransaction {
+func newPingTransaction(client *Client, keepalive bool) *pingTransaction {
 	tLog := client.log.WithTag("PING")
 	tLog.Debug("Created.")
-	return &pingTransaction{
+	var t *pingTransaction
+	t = &pingTransaction{
+		keepalive: keepalive,
 		transaction: &transaction{
 			RetryTransaction: transactions.NewRetryTransaction(
 				client.groupCtx, client.cfg.RetryDelay, client.cfg.RetryCount,
 				func(lastPkt interface{}) error {
 					tLog.Debug("Resend.")
-					return client.send(lastPkt.(pkts.Packet))
+					return t.send(lastPkt.(pkts.Packet))
 				},
 				func() {
 					client.transactions.DeleteByType(pkts.PINGREQ)
@@ -30,6 +34,20 @@ func newPingTransaction(client *Client) *pingTransaction {
 			log:    tLog,
 		},
 	}
+	return t
+}
+
+// send sends a PINGREQ; a keep-alive one only if the client is still active.
+func (t *pingTransaction) send(pkt pkts.Packet) error {
+	if !t.keepalive {
+		return t.client.send(pkt)
+	}
+	t.client.stateLock.RLock()
+	defer t.client.stateLock.RUnlock()
+	if t.client.state.Get() != util.StateActive {
+		return errNotActive
+	}
+	return t.client.send(pkt)
 }
 
 func (t *pingTransaction) Pingresp(pingresp *pkts1.Pingresp) {
